@@ -82,6 +82,13 @@ def s_scenarios():
                                    "P": [{"s": "P", "op": "pop", "line": "QUIT", "marked_uids": [1]}]}})
         if "slow" in name:
             out[-1]["slow"] = ["A"]  # the IMAP peer reads slowly: its FETCH may park after any response
+    # RETR/TOP while an IMAP session's EXPUNGE is removing an earlier message: the snapshot's message or -ERR
+    pre2 = [{"s": "A", "op": "select", "m": "INBOX"}, {"s": "A", "op": "store", "set": "1", "mode": "+", "flags": "\\Deleted"},
+            {"s": "P", "op": "pop_open"}]
+    for name, lines in [("retr|expunge", [("RETR 2", "m2"), ("RETR 3", "m3")]), ("top|expunge", [("TOP 3 1", "m3"), ("TOP 2 0", "m2")])]:
+        out.append({"name": name, "cfg_ref": ["vf.props.c20", "cfg", [3]], "prelude": pre2, "loopopts": {"preempt_timers": False},
+                    "concurrent": {"A": [{"s": "A", "op": "expunge"}],
+                                   "P": [{"s": "P", "op": "pop", "line": ln, "expect_cid": c} for ln, c in lines]}})
     return out
 
 
